@@ -24,6 +24,22 @@ P = {
          "All conversions (from_slice, TryFrom, interpret, from_str, from_hash, to_slice, to_big_endian, set_bit) on complete small scopes and boundary patterns at every length, compared with integer arithmetic (int(bytes) mod p, (int mod (r-1))+1, decimal value mod p).",
          "from_str(\"\") and setting bit indices >= 256 deliberately unconstrained. Trusted: rustc, num-bigint.",
          "DESIGN.md 5 (C13)"),
+ "C04": (True, GRID + "; all ordered pairs of concrete point values (discrete log x Jacobian representative), all triples of a small set",
+         "Every ordered pair over (D x {Aff, LibMul, LibSub, Scaled(2), Scaled(-1), Scaled(generic), ScaledX1, ScaledY1}) + 8 identity representatives for A+B, B+A, A-B, (A-B)+B, unary laws on every value, boundary field values pushed through the adder as Jacobian scalings, all triples of a small set; abstraction (x/z^2, y/z^3) compared with textbook affine chord-and-tangent on reference points; adder arm x relation histogram with every class required.",
+         "Enumerated alphabet only. Trusted: rustc, num-bigint, reference model.",
+         "DESIGN.md 5 (C04)"),
+ "C05": (True, GRID + "; K x all concrete values, every scalar in two complete windows",
+         "P*k and k*P for every (k, value) over the scalar alphabet x all representatives (identity included) against the reference k-fold sum; the discrete-log shortcut of the oracle is itself cross-checked against integer double-and-add; units 0/1/r-1, (a+b)P, (ab)P; EVERY scalar 0..bound and r-bound..r-1 on every representative of +-G and O.",
+         "Enumerated alphabet only. Trusted: rustc, num-bigint, reference model.",
+         "DESIGN.md 5 (C05)"),
+ "C10": (True, GRID + "; all non-identity concrete values x 3 formats x 2 groups",
+         "Library encodings of every representative equal the SM9 byte formats of the reference model's affine coordinates, decode to an equal value and re-encode identically.",
+         "Enumerated alphabet only. Trusted: rustc, num-bigint, reference model.",
+         "DESIGN.md 5 (C10)"),
+ "C15": (True, GRID + "; the complete ==/!= table over all concrete values, normalize / affine conversion on every value",
+         "Every ordered pair over all concrete values (including identity stored as (x,y,0) for several x,y, P vs -P, P vs lambda*P) for ==/!= in both orders decided by discrete logs; is_zero, normalize, AffineG::from_jacobian, From<AffineG> on every value.",
+         "Enumerated alphabet only. Trusted: rustc, num-bigint, reference model.",
+         "DESIGN.md 5 (C15)"),
  "C06": (True, GRID + "; products of limb-boundary alphabets for Fq and Fr",
          "Every ordered pair of the FP(p) alphabet (canonical and Montgomery-targeted limb patterns, special values, paired partners) through + - * ==, every operator form, every unary operation, a^e for designated exponents and for EVERY exponent below a bound, each compared with BigUint arithmetic mod p; model-side carry-class histogram must have no empty feasible class.",
          "Holds on every element of the enumerated finite space, not for all 2^256 inputs. Trusted: rustc, num-bigint, reference model (validated against the published SM9 vectors at start).",
